@@ -48,6 +48,18 @@ Bin(op, l, r) == CASE op \in NumOps -> NNumOp(op, l, r)
                    [] op = "&" -> NConcat(l, r)
                    [] op = ".." -> NArray(<<NRange(l, r)>>)
 
+\* {"a": [1, 2], "o": {"k": 1}, "n": {"x": null}, "m": [null, 1], "s": "a,b"}
+StructDoc == Obj(<< <<ka, Arr(<<IntV(1), IntV(2)>>)>>, <<(<<109>>), Arr(<<Null, IntV(1)>>)>>, <<(<<110>>), Obj(<< <<kx, Null>> >>)>>, <<(<<111>>), Obj(<< <<(<<107>>), IntV(1)>> >>)>>, <<(<<115>>), Str(<<97, 44, 98>>)>> >>)
+PN(nm) == NPath(<<NName(nm)>>, FALSE)
+Structs == { NArray(<<NCall(NVar("count"), <<PN(ka)>>)>>), NArray(<<NNum(IntV(2))>>), NArray(<<NCall(NVar("length"), <<NStr(<<97, 98>>)>>)>>), NArray(<<NNum(IntV(3))>>),
+             NCall(NVar("split"), <<PN(<<115>>), NStr(<<44>>)>>), NArray(<<NStr(<<97>>), NStr(<<98>>)>>), NArray(<<NStr(<<97>>), NStr(<<99>>)>>),
+             NObject(<< <<NStr(<<110>>), NCall(NVar("count"), <<PN(ka)>>)>> >>), NObject(<< <<NStr(<<110>>), NNum(IntV(2))>> >>),
+             NCall(NVar("keys"), <<NObject(<< <<NStr(ka), NNum(IntV(1))>>, <<NStr(kb), NNum(IntV(2))>> >>)>>), NArray(<<NStr(ka), NStr(kb)>>),
+             NCall(NVar("append"), <<PN(ka), NArray(<<>>)>>), PN(ka), NArray(<<NNum(IntV(1)), NNum(IntV(2))>>), NCall(NVar("reverse"), <<NArray(<<NNum(IntV(2)), NNum(IntV(1))>>)>>),
+             NCall(NVar("map"), <<PN(ka), NLambda(<<"v">>, NVar("v"))>>), NCall(NVar("sort"), <<PN(ka)>>), NCall(NVar("distinct"), <<PN(ka)>>),
+             PN(<<110>>), NObject(<< <<NStr(kx), NNull>> >>), NObject(<< <<NStr(kx), NNum(IntV(1))>> >>), NArray(<<PN(<<110>>)>>), NArray(<<NObject(<< <<NStr(kx), NNull>> >>)>>),
+             PN(<<109>>), NArray(<<NNull, NNum(IntV(1))>>), NArray(<<NNum(IntV(1)), NNull>>),
+             PN(<<111>>), NObject(<< <<NStr(<<107>>), NNum(IntV(1))>> >>), NCall(NVar("merge"), <<NArray(<<PN(<<111>>)>>)>>), NArray(<<NArray(<<NCall(NVar("count"), <<PN(ka)>>)>>)>>), NArray(<<NArray(<<NNum(IntV(2))>>)>>) }
 Boom == NCall(NVar("error"), <<NStr(<<98, 111, 111, 109>>)>>)
 SmallOps == {"+", "*", "=", "<", "and", "&", "in"}
 SmallVals == {[node |-> NNum(IntV(1)), val |-> Undef], [node |-> NStr(ka), val |-> Undef],
@@ -75,6 +87,9 @@ Init == /\ \/ \E op \in BinOps, l \in Left, r \in Right :
                  case = MkCase(Bin(op2, NBlock(<<Bin(op1, a.node, b.node)>>), c.node), Obj(<<>>)))
            \/ (Depth2 /\ \E op1 \in SmallOps, op2 \in SmallOps, a \in SmallVals, b \in SmallVals, c \in SmallVals :
                  case = MkCase(Bin(op2, a.node, NBlock(<<Bin(op1, b.node, c.node)>>)), Obj(<<>>)))
+           \* structural comparison of arrays and objects whose members were made by library functions (whatever Go types
+           \* the library hands back), by constructors, or read from the input (incl. null members)
+           \/ \E l \in Structs, r \in Structs, op \in {"=", "!=", "in"} : case = MkCase(Bin(op, l, r), StructDoc)
         /\ out = Pending
 Next == EvaluateCase
 Spec == Init /\ [][Next]_mcvars
